@@ -169,6 +169,8 @@ def generate(seed, tier="quick"):
         oid += 1
     prog = {"format": 1, "property": PROPERTY, "seed": seed, "config": cfg, "ops": ops, "schedule": None, "faults": []}
     _sampling.add_concurrent(rnd, prog, p=0.15)
+    # a "history" call (other data / library / posterior stage on the main sampler) that FAILS half-way is history too
+    _sampling.add_failed_op(rnd, prog, p=0.2, roles=("history",))
     return prog
 
 
@@ -210,6 +212,8 @@ def evaluate(dep, program):
         if role == "history":
             if op["op"] in ("rejection", "iterative") and rec["raised"] is None:
                 had_post_stage = True
+            if _sampling.failed_as_injected(rec):
+                probe("failed_call_in_history(injected pool fault, raised)")
             continue
         if role == "target":
             if rec["raised"] is not None:
